@@ -489,7 +489,7 @@ PROPS = {
                  'EV+/EV* edge-value normalisation not modelled (compared via dump evaluation)',
                  'illegal minterms (DONT_CHANGE with a fixed unprimed value set bypassing setVars, out-of-range entries) not modelled']},
     "C08": {'title': 'Reachability operations return exactly the least fixed point',
-     'theorems': ['Meddly.Reach.lfpIter_spec',
+     'theorems': ['Meddly.Satur.satur_eq_lfp', 'Meddly.Satur.saturate_sound', 'Meddly.Satur.saturate_closed', 'Meddly.Satur.satLoop_stops', 'Meddly.Satur.saturate_red', 'Meddly.Satur.satur_eq_bfs', 'Meddly.Satur.satur_eq_reach_lfp', 'Meddly.Satur.recFire_sound', 'Meddly.Satur.recFire_closed', 'Meddly.Reach.lfpIter_spec',
                   'Meddly.Reach.bfs_nofrontier_eq_lfp',
                   'Meddly.Reach.bfs_frontier_eq_lfp',
                   'Meddly.Reach.bfs_algorithms_agree',
@@ -533,7 +533,7 @@ PROPS = {
                    'specification.',
      'technique': 'Lean 4 proof (monotone growth / pigeonhole for termination, loop invariants, chaotic iteration) + differential correspondence with the closure '
                   'oracle + exhaustive 2-state tier + tagged probes of known triggers',
-     'partial': ["saturation's DD-level recursion and its compute-table use are not modelled (split + schedule independence are proved)",
+     'partial': ["saturation's DD recursion (children first, fixed-point loop per level, recFire saturating its result) IS modelled on trees and proved equal to the least fixed point for every number of levels (Ops/Saturation*.lean: satur_eq_lfp, satLoop_stops, saturate_red, satur_eq_bfs) with the relation abstracted to a semantic function and whole sweeps instead of the index queue; its compute-table use and the relation-as-DD split-by-diagonal are not modelled",
                  'deprecated names REACHABLE_STATES_BFS/DFS are compiled out in this tree (ALLOW_DEPRECATED_0_18_1 undefined): not exercised'],
      'rule': 'cases 0..N-1: random scenarios from (seed, case); cases 800000..: exhaustive 2-state tier; cases 900000..: fixed probes of known trigger classes '
              '(forked)'},
@@ -589,7 +589,7 @@ PROPS = {
                  'schedule taken by a heuristic not predicted',
                  'index-set and real-valued forests not exercised']},
     "C20": {'title': 'Saturation over a partitioned relation equals reachability over its union',
-     'theorems': ['Meddly.Pregen.saturEvents_eq_lfp',
+     'theorems': ['Meddly.Satur.satur_eq_lfp', 'Meddly.Satur.saturate_sound', 'Meddly.Satur.saturate_closed', 'Meddly.Satur.satLoop_stops', 'Meddly.Satur.saturate_red', 'Meddly.Satur.satur_eq_bfs', 'Meddly.Satur.satur_eq_reach_lfp', 'Meddly.Satur.recFire_sound', 'Meddly.Satur.recFire_closed', 'Meddly.Pregen.saturEvents_eq_lfp',
                   'Meddly.Pregen.reachFix_eq_lfp',
                   'Meddly.Pregen.closed_superset_reach',
                   'Meddly.Pregen.saturEvents_sound',
@@ -636,7 +636,7 @@ PROPS = {
                    "tabulation (glue), compared phase by phase with the model's definitions on domains of up to 8 states.",
      'technique': 'Lean 4 proof (set algebra on level arrays, chaotic iteration) + differential correspondence (result vs. lfp specification and vs. BFS edge) + '
                   'structural comparison of the finalized per-level relations with the executable model',
-     'partial': ['saturateHelper/recFire DD recursion not modelled (any-schedule theorem + result check)',
+     'partial': ['saturateHelper/recFire: modelled and proved in Ops/Saturation*.lean for a recFire that enters EVERY level; sat_pregen.cc's recFire jumps to MAX(|mxd level|, mdd level), which is exactly known finding F12 (levels skipped by both set and relation node are never saturated with a fully-reduced set forest)',
                  'backward saturation (SATURATION_BACKWARD) not exercised',
                  "acceptor glue replays finalize with the model's primitives (phase-wise cross-check on <= 8 states)"]},
 }
